@@ -204,6 +204,7 @@ func cache17Scenario(w *World, p *Plan, rec *Record) {
 			}
 			o := genOp()
 			apply(&o)
+			simrt.Logf("op", "%s t%d a%d -> %s", o.Kind, o.Trx, o.Addr, o.Out)
 			if len(sample) < 10 {
 				sample = append(sample, o)
 			}
@@ -238,8 +239,12 @@ func cache17Scenario(w *World, p *Plan, rec *Record) {
 				default:
 					if o.Out == "ok" {
 						m.present[o.Trx] = false
-					} else if expired(o.Trx) && o.Out == "notfound" {
+					} else if expired(o.Trx) {
+						// past its lifetime the cache may have evicted the record, or one of its index entries
+						// before the record (eviction is per entry): "not found" in either wording, and the
+						// transaction is gone for the model either way
 						m.present[o.Trx] = false
+						w.probe("c17-remove-of-expired-transaction:" + strings.SplitN(o.Out, ":", 2)[0])
 					} else {
 						w.violate("C17", "remove", "receiver-could-not-remove", -1, "trx %d: %s", o.Trx, o.Out)
 					}
